@@ -2,7 +2,8 @@
    [layout main pts ns] is the model of d2near.Layout: [main] = what boundingBox sees in g.Objects
    (any number of shapes with any boxes and label data), [pts] = route points of the main edges,
    [ns] = the constant nears in any number, order and mix of the 8 constants, any sizes, any label
-   position strings.  [bounding_box main pts] is the bounding box of the main diagram. *)
+   position strings.  [bounding_box main pts] is the bounding box of the whole main diagram; since
+   40b9f8452 it includes the shapes whose near is another shape ([GObjNear], treated like [GMain]). *)
 From Coq Require Import ZArith QArith List Bool String.
 Open Scope string_scope.
 Import ListNotations.
@@ -31,9 +32,9 @@ Proof. exact thm_centered. Qed.
 (* "Outside the bounding box" read concretely: every near keeps distance >= 20 on its named sides from
    every main shape and from the box of its outside label ... *)
 Theorem C24_near_clear_of_every_shape :
-  forall main pts ns n p b hl lp lw lh,
+  forall main pts ns n p g b hl lp lw lh,
     forallb label_dims_ok_b ns = true ->
-    In (GMain b hl lp lw lh) main ->
+    In g main -> plain g = GMain b hl lp lw lh ->      (* g is a shape: GMain or GObjNear *)
     In (n, p) (combine ns (layout main pts ns)) ->
     side_ok_b pad 0 (box_bb b) (n_key n) (near_box n p) = true /\
     match label_box b hl lp lw lh with
@@ -61,42 +62,25 @@ Theorem C24_later_nears_clear_of_center_nears :
     clear_of_b margin tol (n_key c) (near_box c pc) (n_key d) (near_box d pd) = true.
 Proof. exact thm_clear_of_centers. Qed.
 
-(* The bounding box of the WHOLE main diagram, [full_box], also counts the shapes whose near is another
-   shape (boundingBox skips them).  Without such shapes it is the box above, and the property holds: *)
-Theorem C24_near_outside_whole_diagram_guarded :
-  forall main pts ns n p margin tol,
-    no_obj_near_b main = true ->
-    has_shape_b main = true -> forallb label_dims_ok_b ns = true ->
-    margin <= pad -> 0 <= tol ->
-    In (n, p) (combine ns (layout main pts ns)) ->
-    side_ok_b margin tol (full_box main pts []) (n_key n) (near_box n p) = true /\
-    center_ok_b tol (full_box main pts []) (n_key n) (near_box n p) = true.
-Proof. exact thm_outside_full. Qed.
-
-(* The unguarded statement
+(* History.  Before 40b9f8452 boundingBox skipped every shape with a near key, also those whose near is
+   another shape ([layout_pinned]: those shapes do not exist for the placement).  Then the statement
      forall main pts ns n p, has_shape_b main = true -> forallb label_dims_ok_b ns = true ->
-       In (n, p) (combine ns (layout main pts ns)) ->
-       side_ok_b 0 0 (full_box main pts []) (n_key n) (near_box n p) = true
-   is refuted: in  b; a: {near: b; width: 800; height: 400}; r: R {near: bottom-right}  (boxes as dagre
-   lays them out) the bottom-right near is put at (73,253), inside the 800x400 shape at (113,0). *)
-Theorem C24_whole_diagram_refuted_by_object_near :
+       In (n, p) (combine ns (layout_pinned main pts ns)) ->
+       side_ok_b 0 0 (bounding_box main pts) (n_key n) (near_box n p) = true
+   was false: in  b; a: {near: b; width: 800; height: 400}; r: R {near: bottom-right}  (boxes as dagre
+   lays them out) the bottom-right near was put at (73,253), inside the 800x400 shape at (113,0). *)
+Theorem C24_pinned_code_refuted_by_object_near :
   let p := (73 # 1, 253 # 1) in
   has_shape_b cex_main = true /\ forallb label_dims_ok_b [cex_near] = true /\
-  In (cex_near, p) (combine [cex_near] (layout cex_main [] [cex_near])) /\
-  side_ok_b 0 0 (full_box cex_main [] []) BottomRight (near_box cex_near p) = false /\
+  In (cex_near, p) (combine [cex_near] (layout_pinned cex_main [] [cex_near])) /\
+  side_ok_b 0 0 (bounding_box cex_main []) BottomRight (near_box cex_near p) = false /\
   boxes_overlap_b (near_box cex_near p) (mkbox 113 0 800 400) = true.
-Proof. exact thm_object_near_refuted. Qed.
+Proof. exact thm_pinned_refuted. Qed.
 
-(* With the repair of coq/C24/fix.patch boundingBox treats those shapes like all others, i.e. it is the
-   pinned function applied to [map plain main]; then the statement holds without the guard. *)
-Theorem C24_repaired_code_whole_diagram :
-  forall main pts ns n p margin tol,
-    has_shape_b (map plain main) = true -> forallb label_dims_ok_b ns = true ->
-    margin <= pad -> 0 <= tol ->
-    In (n, p) (combine ns (layout (map plain main) pts ns)) ->
-    side_ok_b margin tol (full_box main pts []) (n_key n) (near_box n p) = true /\
-    center_ok_b tol (full_box main pts []) (n_key n) (near_box n p) = true.
-Proof. exact thm_fixed_whole_diagram. Qed.
+(* The repaired code places the same near at (933,420), as C24_near_outside_on_side demands. *)
+Theorem C24_repaired_code_example :
+  In (cex_near, (933 # 1, 420 # 1)) (combine [cex_near] (layout cex_main [] [cex_near])).
+Proof. exact thm_repaired_example. Qed.
 
 (* non-vacuity: a one-shape diagram with a labelled top-left near satisfies the hypotheses *)
 Example C24_hyps_satisfiable :
@@ -115,15 +99,15 @@ Example C24_center_first_hyps_satisfiable :
   In (mknear TopCenter 300 40 None 0 0, ((-500) # 4, (-60) # 1)) (combine ns (layout main [] ns)).
 Proof. vm_compute. repeat split; auto. Qed.
 
-Example C24_guard_satisfiable :
-  no_obj_near_b [GMain (mkbox 0 0 50 60) true None 10 20] = true.
-Proof. reflexivity. Qed.
+Example C24_shape_hyps_satisfiable :
+  In (GObjNear (mkbox 113 0 800 400) true None 8 21) cex_main /\
+  plain (GObjNear (mkbox 113 0 800 400) true None 8 21) = GMain (mkbox 113 0 800 400) true None 8 21.
+Proof. split; [right; left; reflexivity | reflexivity]. Qed.
 
 Print Assumptions C24_near_outside_on_side.
 Print Assumptions C24_center_nears_centred.
 Print Assumptions C24_near_clear_of_every_shape.
 Print Assumptions C24_near_clear_of_every_route_point.
 Print Assumptions C24_later_nears_clear_of_center_nears.
-Print Assumptions C24_near_outside_whole_diagram_guarded.
-Print Assumptions C24_whole_diagram_refuted_by_object_near.
-Print Assumptions C24_repaired_code_whole_diagram.
+Print Assumptions C24_pinned_code_refuted_by_object_near.
+Print Assumptions C24_repaired_code_example.
